@@ -38,6 +38,7 @@ class Ctx:
     def origins(self):
         if self._og is None:
             self._og = Origins(self.body)
+            self._og.set_cfg(self.cfg)
         return self._og
 
     @property
